@@ -235,6 +235,44 @@ def judge(run, scratch, prop, want, progs, origin, nontrivial):
     return len(recs)
 
 
+G_PB = [4082, 4086, 4090, 4094]
+G_PJ = [1048564, 1048568, 1048572]
+
+
+def pseudo_spelling(run, scratch):
+    """Relational: a pseudo-branch / j / jal label and the base instruction the instruction reference documents for it are two
+    spellings of one instruction, so the two programs must fare alike (status, bytes, labels) in either mode - in particular a
+    pseudo-branch whose FINAL offset is legal must be accepted wherever the plain branch is.  Programs of class `pbranch`
+    (range edges, with late-settling items in between) are assembled as written and with every such item written plainly."""
+    total = 0
+    for maxlen, gaps in ((4 if run.tier == 'thorough' else 3, G_PB), (3, G_PJ)) + (((4, G_PB[:2]),) if run.tier == 'quick' else ()):
+        alpha, idx, r = layout.enumerate_programs(scratch, 'pbranch', maxlen, gaps)
+        run.add_tlc('AsmProgs pbranch N=%d gaps=%s' % (maxlen, gaps), r)
+        plain = layout.PLAIN['pbranch', tuple(gaps)]
+        pairs = [([alpha[j - 1] for j in p], [plain[j - 1] for j in p]) for p in idx]
+        pairs = [(a, b) for a, b in pairs if a != b and any(it['k'] == 'lab' for it in a)]
+        ra = layout.assemble_all([a for a, _ in pairs], scratch)
+        rb = layout.assemble_all([b for _, b in pairs], scratch)
+        both = 0
+        for x, y in zip(ra, rb):
+            total += 1
+            own = {it['t'] for it in x['prog'] if it['k'] == 'lab'}
+            for mode in ('nc', 'c'):
+                ox, oy = x[mode], y[mode]
+                same = (ox['status'] == oy['status'] and ox['sizes'] == oy['sizes'] and ox['hw'] == oy['hw'] and ox['rle'] == oy['rle']
+                        and {k: v for k, v in ox['labels'].items() if k in own} == {k: v for k, v in oy['labels'].items() if k in own})
+                both += 1 if ox['status'] == 'ok' and oy['status'] == 'ok' else 0
+                if not same:
+                    what = 'PseudoAcceptedLikePlain' if ox['status'] != oy['status'] else 'PseudoBytesLikePlain'
+                    run.violation(what, {'mode': mode, 'pseudo_status': ox['status'], 'plain_status': oy['status']},
+                                  {'as_written': x['src'], 'written_plainly': y['src'], 'pseudo': {k: ox[k] for k in ('status', 'sizes', 'labels', 'msg')},
+                                   'plain': {k: oy[k] for k in ('status', 'sizes', 'labels', 'msg')}})
+        if both < 100:
+            raise tlc.TlcFailure('non-vacuity: only %d pseudo/plain pairs assembled' % both)
+    run.coverage['pseudo_vs_plain_program_pairs'] = total
+    return total
+
+
 def c03(run, scratch):
     model_level(run, scratch, 'C03')
     run_plan(run, scratch, 'C03')
